@@ -41,7 +41,7 @@ Passes == <<"expand_vectors_sx", "resolve_parameter_values", "replace_parameter_
             "factor_and_simplify_equations", "detect_aliases", "reduce_affine_expression",
             "expand_mx">>
 VectorNames == {"states_vector", "der_states_vector", "alg_states_vector", "inputs_vector"}
-Eliminable(x) == x \in {"e_1", "e_2", "e_s"}        \* names matching the eliminable_variable_expression used by the harness
+Eliminable(x) == x \in {"e_1", "e_2", "e_3", "e_s"}        \* names matching the eliminable_variable_expression used by the harness
 DerOf(x) == "der(" \o x \o ")"
 
 (* the signed alias relation of C17 *)
